@@ -114,6 +114,12 @@ def independent_minimum(records, sig):
         rec_cost = sum(cc * sh for cc, sh in zip(costs, shed))
         slack = gap + len(buses) * lpcap.ALPHA * cmax + F(1, 10 ** 9)      # amounts below alpha are not recorded
         sig.add(("independent", r["reactive"], r["call"] is None, dual > slack))
+        primal = F(o[1])
+        if rec_cost > primal + slack:
+            tag = f"{'reactive' if r['reactive'] else 'active'} problem of island {r['names']}"
+            viols.append(("lp.above-minimum", f"{tag}: the recorded shed {[float(x) for x in shed]} costs {float(rec_cost):.9g}, a certified feasible solution of the documented problem costs "
+                                              f"{float(primal):.9g} (loads {[float(x) for x in loads]}, generation {[float(g) if g < lpcap.INF else 'inf' for g in gens]}): what was recorded is not a minimum-cost solution"
+                                              + (" - the solver was not called for this island" if r["call"] is None else "")))
         if rec_cost < dual - slack:
             tag = f"{'reactive' if r['reactive'] else 'active'} problem of island {r['names']}"
             viols.append(("lp.below-minimum", f"{tag}: the recorded shed {[float(x) for x in shed]} costs {float(rec_cost):.9g}, the certified minimum of the documented problem is "
